@@ -2,10 +2,11 @@
 CONFIG = {
     "manifest": {
         "level_text": "Coq theorems, closed under the global context, for ALL inputs (over Q and Z), about statement-level models of interp, of the index computation shared by position / gradient / width / offset, and of SubPath::eval / SubPath::gradient for the polynomial sections: constant / linear / smooth interpolation return the requested values at and beyond both ends, depend on u only through its clamp to [0,1] and stay between the two values (interp_endpoints); SERP is monotone on [0,1]; a query at parameter u on a path of count > 0 sections uses section idx < count with local parameter fr in [0,1], idx + fr = clamp(u, 0, count), the previous section with fr = 1 exactly when from_below is set at a positive integer or at the end of the path (query_index; count = 0 is Crash in the model as in the C++); SubPath::eval continues a section outside [0,1] along its end tangent with slope gradient(clamp u) and a Segment section by its own line; for Segment, Bezier2, Bezier3 and general Bezier sections with >= 2 control points, every transformation matrix and 0 <= u <= 1, eval is the value of the Bernstein polynomial (row of trafo applied) and gradient is the value of its FORMAL derivative (coefficient k of p' is (k+1) a_(k+1), proved), de Casteljau as coded = Bernstein recurrence; plus the exact oracle lemmas (point-segment distance test, bounding-box shortcut, polyline disjunction). The models are tied to /repo on every run EXACTLY (bit for bit) on dyadic inputs: position, gradient, width, offset and SubPath::eval / gradient outside [0,1] of the implementation equal the extracted model. NOT theorems, validated per run: Arc and Parametric sections (formulas in long double and finite differences), the outline region of to_polygons (exact oracle at sample points, guard 4 tol), sections meeting, spine(), commands() against direct calls, PATH records, termination of the intersection searches (alarm).",
-        "level_note": "Tier B. gradient_is_derivative is partial in scope: polynomial sections only (Arc / Parametric derivatives are checked per run, not proved). The adaptive samplers and the Newton-like intersection searches are not modelled. The centre curve is sampled by the harness in long double (adaptive flattening to tol/8) from the stored sections and interpolations, displaced by the interpolated offset along the unit normal of the transformed gradient; vertices are multiplied by 2^30 and ROUNDED to the nearest integer (error <= 2^-31, five orders of magnitude below the guard bands); classification and winding number are exact integer arithmetic extracted from Coq. Exact query cases use control points / widths / offsets that are multiples of 1/4 below 2^6, parameters that are multiples of 1/16, translations and scalings by powers of two, so every double operation of the C++ is exact. Generator preconditions for the region check: 1-3 elements, widths and offsets continuous across sections (constant / linear / smooth), corners <= 60 degrees and only between sections whose centre lines are straight, spine curvature radius >= 2 x (half width + |offset|) (otherwise skipped), max_evals 1000, tolerance 1e-2 or 1e-3; interpolation() is called without width / offset change (see finding taper-restarts-per-piece).",
+        "level_note": "Tier B. gradient_is_derivative covers polynomial sections (PathBook, over Q: formal derivative of the Bernstein form) and Arc sections (ArcSection.v, over R with Coquelicot: SubPath::gradient is the derivative of SubPath::eval at every real parameter including the linear continuation, which is C1; circular arcs keep distance k r from the centre and speed k r |angle_f - angle_i| under a similarity trafo; the spine normal is the unit left normal; RobustPath::arc / turn start at the end point / along the previous direction); Parametric (user-function) derivatives are checked per run, not proved; sin / cos of libm and rounding are not modelled. The adaptive samplers and the Newton-like intersection searches are not modelled. The centre curve is sampled by the harness in long double (adaptive flattening to tol/8) from the stored sections and interpolations, displaced by the interpolated offset along the unit normal of the transformed gradient; vertices are multiplied by 2^30 and ROUNDED to the nearest integer (error <= 2^-31, five orders of magnitude below the guard bands); classification and winding number are exact integer arithmetic extracted from Coq. Exact query cases use control points / widths / offsets that are multiples of 1/4 below 2^6, parameters that are multiples of 1/16, translations and scalings by powers of two, so every double operation of the C++ is exact. Generator preconditions for the region check: 1-3 elements, widths and offsets continuous across sections (constant / linear / smooth), corners <= 60 degrees and only between sections whose centre lines are straight, spine curvature radius >= 2 x (half width + |offset|) (otherwise skipped), max_evals 1000, tolerance 1e-2 or 1e-3; interpolation() is called without width / offset change (see finding taper-restarts-per-piece).",
         "technique": "Coq proofs over Q/Z (interpolation, index arithmetic with Qfloor, Bernstein / formal-derivative algebra, exact distance and winding oracle) + bit-exact differential run of the extracted model on dyadic inputs + per-run validation of outlines and records by the extracted oracle (Tier B)",
     },
     "prop_file": "Properties_C08",
+    "extra_prop_files": ["Properties_C08A"],   # Arc sections over R: gradient = derivative of eval, continuation C1, circle facts (ArcSection.v)
     "extract_file": "Extract_C08",
     "extracted": ["c08_robustpath"],
     "driver": "c08_robustpath",
